@@ -203,9 +203,14 @@ func (s *Server) Run(addr string, opt ...Option) error {
 			verifPoint("conn.start", localConnID, 0)
 			defer func() {
 				verifPoint("conn.teardown", localConnID, 0)
-				s.logger.Debug("connWg done", "op", op, "conn", localConnID)
-				verifPoint("conn.wgdone", localConnID, 0)
-				s.connWg.Done()
+				// Stop waits on connWg: only report this conn as done once it
+				// has been closed and the onCloseHandler has returned
+				defer func() {
+					s.logger.Debug("connWg done", "op", op, "conn", localConnID)
+					verifPoint("conn.wgdone", localConnID, 0)
+					s.connWg.Done()
+					verifPoint("conn.gone", localConnID, 0)
+				}()
 				err := conn.close()
 				verifPoint("conn.closed", localConnID, 0)
 				if err != nil {
@@ -218,7 +223,6 @@ func (s *Server) Run(addr string, opt ...Option) error {
 					s.onCloseHandler(localConnID)
 					verifPoint("conn.oncloseend", localConnID, 0)
 				}
-				verifPoint("conn.gone", localConnID, 0)
 			}()
 
 			if !s.disablePanicRecovery {
